@@ -153,7 +153,8 @@ public:
    */
   static double randExponential(double mean)
   {
-    std::exponential_distribution<double> dis(mean);
+    // std::exponential_distribution is parametrized by the rate, which is 1 / mean.
+    std::exponential_distribution<double> dis(1. / mean);
     return dis(DEFAULT_GENERATOR);
   }
 
